@@ -1427,6 +1427,33 @@ func submatchGroups(coll ssa.Value) (int, bool) {
 	}
 	for _, r := range Roots(call.Call.Args[0], false) {
 		cl, _ := CallOfValue(r)
+		// a package-level regexp: the one value its package's init stores into it
+		if u, ok := r.(*ssa.UnOp); ok && cl == nil {
+			if g, ok := u.X.(*ssa.Global); ok && g.Pkg != nil {
+				var stores []ssa.Value
+				if init := g.Pkg.Func("init"); init != nil {
+					EachInstr(init, func(in ssa.Instruction) {
+						if st, ok := in.(*ssa.Store); ok && st.Addr == ssa.Value(g) {
+							stores = append(stores, st.Val)
+						}
+					})
+				}
+				written := false
+				for _, f := range PkgFuncs(g.Pkg) {
+					if f.Name() == "init" {
+						continue
+					}
+					EachInstr(f, func(in ssa.Instruction) {
+						if st, ok := in.(*ssa.Store); ok && st.Addr == ssa.Value(g) {
+							written = true
+						}
+					})
+				}
+				if len(stores) == 1 && !written {
+					cl, _ = CallOfValue(stores[0])
+				}
+			}
+		}
 		if cl == nil || !MatchCC(&cl.Call, Spec{"regexp", "", "MustCompile"}, Spec{"regexp", "", "Compile"}) {
 			return 0, false
 		}
